@@ -64,6 +64,7 @@ func (t *Transcoder) ServeHTTP(writer http.ResponseWriter, request *http.Request
 
 	if t.unknownHandler != nil && errors.Is(err, errNotFound) {
 		op.request.Header = op.originalHeaders // restore headers, just in case initialization removed keys
+		verifPoint("serve:unknown")
 		t.unknownHandler.ServeHTTP(writer, op.request)
 		return
 	}
@@ -79,6 +80,7 @@ func (t *Transcoder) ServeHTTP(writer http.ResponseWriter, request *http.Request
 		// No transformation needed. But we do need to restore the original headers first
 		// since extracting request metadata may have removed keys.
 		op.request.Header = op.originalHeaders
+		verifPoint("serve:passthrough")
 		op.methodConf.handler.ServeHTTP(writer, op.request)
 		return
 	}
@@ -588,11 +590,14 @@ func (o *operation) handle() {
 	switch {
 	case skipBody:
 		// drain any contents of body so downstream handler sees empty
+		verifPoint("req:skipbody")
 		o.drainBody(o.request.Body)
 	case sameRequestCompression && sameRequestCodec && !mustDecodeRequest:
 		// we do not need to decompress or decode; just transforming envelopes
+		verifPoint("req:enveloping")
 		o.request.Body = &envelopingReader{rw: rw, r: o.request.Body}
 	default:
+		verifPoint("req:transforming")
 		tw := &transformingReader{rw: rw, msg: &reqMsg, r: o.request.Body}
 		o.request.Body = tw
 		if reqMsg.stage != stageEmpty {
@@ -602,6 +607,7 @@ func (o *operation) handle() {
 		}
 	}
 
+	verifPoint("serve:handle")
 	o.methodConf.handler.ServeHTTP(o.writer, o.request)
 }
 
@@ -794,6 +800,7 @@ type envelopingReader struct {
 func (r *envelopingReader) Read(data []byte) (n int, err error) {
 	r.mu.Lock()
 	defer r.mu.Unlock()
+	verifPoint("er:read")
 	if r.err != nil {
 		return 0, r.err
 	}
@@ -894,6 +901,7 @@ func (r *envelopingReader) prepareNext() error {
 		env, err = r.rw.op.clientEnveloper.decodeEnvelope(envBytes)
 		if err != nil {
 			err = malformedRequestError(err)
+			verifPoint("er:reportError")
 			r.rw.reportError(err)
 			return err
 		}
@@ -931,6 +939,7 @@ type transformingReader struct {
 func (r *transformingReader) Read(data []byte) (n int, err error) {
 	r.mu.Lock()
 	defer r.mu.Unlock()
+	verifPoint("tr:read")
 	if r.err != nil {
 		return 0, r.err
 	}
@@ -971,6 +980,7 @@ func (r *transformingReader) Read(data []byte) (n int, err error) {
 		}
 		if err := r.prepareMessage(); err != nil {
 			r.err = err
+			verifPoint("tr:reportError")
 			r.rw.reportError(err)
 			return 0, io.EOF
 		}
@@ -1043,6 +1053,7 @@ func (w *responseWriter) Header() http.Header {
 }
 
 func (w *responseWriter) Write(data []byte) (n int, err error) {
+	verifPoint("rw:write")
 	if !w.headersWritten {
 		w.WriteHeader(http.StatusOK)
 	}
@@ -1108,6 +1119,7 @@ func (w *responseWriter) WriteHeader(statusCode int) {
 		// RPC failed immediately.
 		if processBody != nil {
 			// We have to wait until we receive the body in order to process the error.
+			verifPoint("resp:errorWriter")
 			w.w = &errorWriter{
 				rw:          w,
 				respMeta:    w.respMeta,
@@ -1118,6 +1130,7 @@ func (w *responseWriter) WriteHeader(statusCode int) {
 		}
 		// We can send back error response immediately.
 		w.flushHeaders()
+		verifPoint("resp:noBody")
 		w.w = noResponseBodyWriter{}
 		return
 	}
@@ -1157,6 +1170,7 @@ func (w *responseWriter) WriteHeader(statusCode int) {
 	if endMustBeInHeaders {
 		// We must await the end before we can write headers, which means we have to
 		// buffer the entire response.
+		verifPoint("resp:buffered")
 		w.buf = w.op.bufferPool.Get()
 		delegate = &limitWriter{buf: w.buf, limit: w.op.methodConf.maxMsgBufferBytes, rw: w}
 	} else {
@@ -1168,8 +1182,10 @@ func (w *responseWriter) WriteHeader(statusCode int) {
 	// Now we can define the transformed response body.
 	if sameResponseCodec && !mustDecodeResponse {
 		// we do not need to decompress or decode
+		verifPoint("resp:enveloping")
 		w.w = &envelopingWriter{rw: w, w: delegate}
 	} else {
+		verifPoint("resp:transforming")
 		w.w = &transformingWriter{rw: w, msg: &respMsg, w: delegate}
 	}
 }
@@ -1215,6 +1231,7 @@ func (w *responseWriter) reportEnd(end *responseEnd) {
 		// first such call and ignore the others.
 		return
 	}
+	verifPoint("rw:reportEnd")
 	if w.respMeta != nil && len(w.respMeta.pendingTrailers) > 0 && len(end.trailers) == 0 {
 		// add any pending trailers to the end
 		end.trailers = w.respMeta.pendingTrailers
@@ -1230,6 +1247,7 @@ func (w *responseWriter) reportEnd(end *responseEnd) {
 		w.respMeta = &responseMeta{end: end}
 		w.flushHeaders()
 	}
+	verifPoint("rw:reportEnd:flush")
 	w.flusher.Flush()
 	// response is done
 	w.err = errFinalDataAlreadyWritten
@@ -1253,6 +1271,7 @@ func (w *responseWriter) flushHeaders() {
 	// TODO: At this point, if the server was gRPC but the client is not, we may have "Trailer"
 	//       headers reserving the use of various metadata keys in trailers. It would be
 	//       cleaner if they were culled and only remained present for sneding to gRPC clients.
+	verifPoint("rw:flushHeaders")
 	w.delegate.WriteHeader(statusCode)
 	if w.buf != nil {
 		if !hasErr {
@@ -1391,6 +1410,7 @@ func (w *envelopingWriter) writeBytes(data []byte) (int, error) {
 
 func (w *envelopingWriter) handleEnvelopeWritten() error {
 	w.writingEnvelope = false
+	verifPoint("ew:envelope")
 	env, err := w.rw.op.serverEnveloper.decodeEnvelope(w.env)
 	if err != nil {
 		err = malformedRequestError(err)
@@ -1685,6 +1705,7 @@ func (w *transformingWriter) flushMessage() error {
 		return err
 	}
 	buffer := w.msg.sendBuffer()
+	verifPoint("tw:flush")
 	if enveloper := w.rw.op.clientEnveloper; enveloper != nil {
 		length := buffer.Len()
 		if limit := int(w.rw.op.methodConf.maxMsgBufferBytes); length > limit {
@@ -2023,6 +2044,7 @@ func (m *message) decompress(op *operation) error {
 		return err
 	}
 	op.bufferPool.Put(m.buf)
+	verifPoint("msg:swap")
 	m.buf = tmp
 	return nil
 }
@@ -2049,6 +2071,7 @@ func (m *message) compress(op *operation) error {
 		return err
 	}
 	op.bufferPool.Put(m.buf)
+	verifPoint("msg:swap")
 	m.buf = tmp
 	return nil
 }
@@ -2103,6 +2126,7 @@ func (m *message) encode(op *operation) error {
 		return err
 	}
 	op.bufferPool.Put(m.buf)
+	verifPoint("msg:swap")
 	m.buf = op.bufferPool.Wrap(data, buf)
 	return nil
 }
